@@ -40,6 +40,8 @@ type Ctx struct {
 	violKeys map[string]int64
 	nViol    int
 	start    time.Time
+
+	validCache map[string]bool
 }
 
 func (c *Ctx) Thorough() bool { return c.Tier == "thorough" }
@@ -355,6 +357,21 @@ func (c *Ctx) Val(list []string) (res ValRes) {
 func (c *Ctx) Valid(s string) bool {
 	r := c.Val([]string{s})
 	return r.Panic == "" && r.OK && len(r.Invalid) == 0
+}
+
+// ValidCached memoises Valid per child (used where the same pool strings recur thousands of times).
+func (c *Ctx) ValidCached(s string) bool {
+	if c.validCache == nil {
+		c.validCache = map[string]bool{}
+	}
+	if v, ok := c.validCache[s]; ok {
+		return v
+	}
+	v := c.Valid(s)
+	if len(c.validCache) < 1<<20 {
+		c.validCache[s] = v
+	}
+	return v
 }
 
 // memWatch exits the child when its heap exceeds capBytes: a guard, not an oracle (exit code 3 =>
